@@ -11,16 +11,21 @@ inductive Res (α : Type) where
   | ok : α → Res α
   | panic : Res α
 
+/-- RFC 2268 §2: T8 = (T1+7)/8 — the effective key length in bytes -/
+def t8Of (t1 : Nat) : Nat := (t1 + 7) / 8
+/-- RFC 2268 §2: TM = 255 MOD 2^(8 + T1 - 8*T8) — Go: `byte(255 % uint(1<<(8+uint(t1)-8*uint(t8))))` -/
+def tmOf (t1 : Nat) : Nat := 255 % (2 ^ (8 + t1 - 8 * t8Of t1))
+
 /-- `expandKey`; `t1 ≥ 0` (the op line carries a natural number) -/
 def expandKey (key : Bytes) (t1 : Nat) : Res (Array UInt16) :=
   let t := key.length
-  let t8 := (t1 + 7) / 8
+  let t8 := t8Of t1
   -- `for i := len(key); i < 128; i++ { l[i] = piTable[l[i-1]+l[uint8(i-t)]] }` : l[i-1] with i = 0 panics
   if t == 0 then .panic
   -- `l[128-t8]` : out of range for t8 = 0 (index 128) and t8 > 128 (negative index)
   else if t8 == 0 || t8 > 128 then .panic
   else
-    let tm : UInt8 := UInt8.ofNat (255 % (2 ^ (8 + t1 - 8 * t8)))
+    let tm : UInt8 := UInt8.ofNat (tmOf t1)
     let l0 : Array UInt8 := (key.take 128 ++ zeros (128 - key.length)).toArray
     let l1 := (List.range (128 - min t 128)).foldl (fun (l : Array UInt8) n =>
       let i := t + n
